@@ -209,6 +209,19 @@ M = [
       old="        let offset = array\n            .len()\n            .checked_sub(bytes.len().try_into()?)\n            .ok_or(Tag::Integer.length_error())?;\n",
       new="        let offset = array.len().saturating_sub(bytes.len().try_into()?);\n",
       expect="capguard|uint::encoding::der"),
+ # --- c13.signext / c16.signext / c06.subcmp (rules added after seed rounds C13a/C13b/C16e, C06d/C06e)
+ dict(name="from_i128_zero_extended", prop="C13", file="src/int/from.rs",
+      old="        Uint::<{ I128::LIMBS }>::from_u128(n as u128)\n            .as_int()\n            .resize()",
+      new="        Uint::<{ I128::LIMBS }>::from_u128(n as u128)\n            .resize()\n            .as_int()",
+      expect="c13.signext|int::from::<impl int::Int<_>>::from_i128|resize"),
+ dict(name="from_i128_generic_constructor", prop="C16", file="src/int/from.rs",
+      old="        Uint::<{ I128::LIMBS }>::from_u128(n as u128)\n            .as_int()\n            .resize()",
+      new="        Uint::from_u128(n as u128).as_int()",
+      expect="c16.signext|int::from::<impl int::Int<_>>::from_i128|from_u128"),
+ dict(name="int_lt_by_wrapped_difference", prop="C06", file="src/int/cmp.rs",
+      old="        Uint::lt(&lhs.invert_msb().0, &rhs.invert_msb().0)",
+      new="        Self(lhs.0.wrapping_sub(&rhs.0)).is_negative()",
+      expect="c06.subcmp|int::cmp::<impl int::Int<_>>::lt"),
 ]
 
 def main():
